@@ -290,7 +290,7 @@ func (f *frame) pureCall(in *ssa.Call) {
 		case "ite":
 			setBoth(dual{mergeVal(args[0][0].T, args[1][0], args[2][0]), mergeVal(args[0][1].T, args[1][1], args[2][1])})
 			return
-		case "forall", "exists", "forall2":
+		case "forall", "exists", "forall2", "forallk":
 			var r [2]Term
 			nv := 1
 			if name == "forall2" {
@@ -313,8 +313,8 @@ func (f *frame) pureCall(in *ssa.Call) {
 				bvs = append(bvs, bv)
 				bargs = append(bargs, dualOf(Val{T: bv}))
 				qs := "Int"
-				if x.X.bvMode && i < len(cl.Fn.Params) {
-					qs = x.X.sortOf(cl.Fn.Params[i].Type()) // bit-vector mode: the bound variable has its Go type's width
+				if (x.X.bvMode || name == "forallk") && i < len(cl.Fn.Params) {
+					qs = x.X.sortOf(cl.Fn.Params[i].Type()) // bit-vector mode / forallk: the bound variable has its Go type's sort
 				}
 				decl = append(decl, fmt.Sprintf("(%s %s)", bv, qs))
 			}
@@ -328,6 +328,14 @@ func (f *frame) pureCall(in *ssa.Call) {
 			}
 			for m := 0; m < 2; m++ {
 				bt := body[m].T
+				if name == "forallk" && len(cl.Fn.Params) > 0 {
+					// the bound variable ranges over the values of its Go type
+					if _, isBasic := cl.Fn.Params[0].Type().Underlying().(*types.Basic); isBasic {
+						if ti := x.typeInvTop(cl.Fn.Params[0].Type(), bvs[0], "0"); ti != "true" {
+							bt = implies(ti, bt)
+						}
+					}
+				}
 				if pats := autoPatterns(bt, bvs); len(pats) > 0 && os.Getenv("GCV_NOPATTERNS") == "" {
 					ann := ""
 					for _, p := range pats {
@@ -471,6 +479,13 @@ func (f *frame) pureCall(in *ssa.Call) {
 			return
 		case "imax":
 			setT(sx("imax", args[0][0].T, args[1][0].T), sx("imax", args[0][1].T, args[1][1].T))
+			return
+		case "visited":
+			// visited(k): has the enclosing range-over-map loop (key type of k) produced key k?
+			ks := x.X.sortOf(in.Call.Args[0].Type())
+			vcn, vsort := "Ghost_vis_"+sanitize(ks), "(Array "+ks+" Bool)"
+			x.comp(vcn, vsort)
+			setT(sx("select", f.mem[0].heapOf(vcn, vsort), args[0][0].T), sx("select", f.mem[1].heapOf(vcn, vsort), args[0][1].T))
 			return
 		case "sameslice", "samemap":
 			setT(eq(args[0][0].T, args[1][0].T), eq(args[0][1].T, args[1][1].T))
